@@ -381,5 +381,9 @@ PROPS["C03"]["explanation"] += " (SETLEN) the test that decides whether a data e
 PROPS["C03"]["rules"] = PROPS["C03"]["rules"] + [rules_sd.rule_presize_consumed]
 PROPS["C03"]["explanation"] += " (SETLENUSE) a pending pre-sizing request is honoured before every seek or write on the data element, also when an earlier read had already opened the element."
 
+PROPS["C15"]["rules"] = PROPS["C15"]["rules"] + [rules_gr.rule_import_compression]
+PROPS["C15"]["explanation"] += " (CRDRV) each of the three storage conventions GR imports images from (GR Vgroup, RIG, ungrouped RI8/CI8/II8) can select the compressed-raster driver for the image it finds."
+PROPS["C09"]["rules"] = PROPS["C09"]["rules"] + [rules_gr.rule_import_compression]
+
 NOT_APPLICABLE = {}
 
